@@ -327,7 +327,7 @@ func init() {
 		ID:    "C03",
 		Level: "exploration",
 		Rule: "(1) every string of length <= 3 and every string containing '%' of length <= 5 (quick) / <= 6 (thorough) over {%, a, p, ., (, ), \", space, comma, é} as a parameter value: build verdict vs. hand-written evaluator (reject / accept / unspecified), accepted ones packed and evaluated by GetParam in a probe; " +
-			"(2) every chunk sequence of length <= 3 (quick) / <= 4 (thorough) over 25 chunk kinds (literals, %%, references to every literal type, functions ok/failing, env/envInt hit/miss/default/bad, todo) as parameter and as constructor argument; (3) the doubling corollary for every string of (1). non-trivial = contains '%' or is evaluated at run time; distinct = distinct string / sequence",
+			"(1b) every argument text of length <= 4 / <= 5 over {(, ), \", a, comma, space, ., /} inside %a(...)%, in both modes; (1d) every string of length <= 3 over {%, backslash, \", newline, NUL, an astral rune, ', `, $, @, !, U+2028} as parameter and as constructor argument; (2) every chunk sequence of length <= 3 (quick) / <= 4 (thorough) over 25 chunk kinds (literals, %%, references to every literal type, functions ok/failing, env/envInt hit/miss/default/bad, todo) as parameter and as constructor argument; (3) the doubling corollary for every string of (1). non-trivial = contains '%' or is evaluated at run time; distinct = distinct string / sequence",
 		Assumptions: []string{
 			"unspecified: function-call chunks whose argument text is valid Go but not a list of string literals (identifiers would have to exist as Go symbols)",
 			"the pinned runtime's documented string cast (exporter.CastToString) is re-stated in the model for the YAML literal types",
@@ -433,6 +433,59 @@ func init() {
 					if i == 0 {
 						c.Sample(map[string]any{"strings": part[:8], "packed_params": len(ents)})
 					}
+				})
+			}
+			// (1d) a second alphabet: quotes, backslash, newline, NUL, an astral rune, characters that start other
+			// argument forms; every string of length <= 3 as parameter value and as constructor argument
+			var wild []string
+			words([]string{"%", `\`, `"`, "\n", "\x00", "😀", "'", "`", "$", "@", "!", "\u2028"}, 3, func(x string) {
+				if x != "" {
+					wild = append(wild, x)
+				}
+			})
+			for i := 0; i < len(wild); i += 300 {
+				j := i + 300
+				if j > len(wild) {
+					j = len(wild)
+				}
+				part := wild[i:j]
+				w.Case(fmt.Sprintf("wild/%d-%d", i, j-1), func(c *C) {
+					c.Add("evaluations_extra", int64(len(part)))
+					packed, args, double := c03universe(), c03universe(), c03universe()
+					var pops, aops, dops []ProbeOp
+					for k, sv := range part {
+						c.Distinct("all", "w:"+sv)
+						c.Distinct("nontrivial", "w:"+sv)
+						v, frag := c03verdict(sv, declared, fns)
+						cfg := c03universe()
+						cfg.Params = append(cfg.Params, Param{"x", sv})
+						files := []File{{"c.yaml", cfg.YAML()}}
+						br := w.Build(files)
+						switch {
+						case br.Panic != "":
+							c.Violation("panic", fmt.Sprintf("tool panicked on parameter value %q:\n%s", sv, br.Panic), FilesMap(files), nil)
+						case v == "reject" && br.Exit == 0:
+							c.Violation("malformed-accepted:"+classify(sv), fmt.Sprintf("parameter value %q must be rejected (%s) but was accepted", sv, frag), FilesMap(files), nil)
+						case v == "accept" && br.Exit != 0:
+							c.Violation("valid-rejected:"+classify(sv), fmt.Sprintf("parameter value %q must be accepted:\n%s", sv, strings.Join(ErrorLines(br.Out), "\n")), FilesMap(files), nil)
+						case v == "accept":
+							n := fmt.Sprintf("x%d", k)
+							packed.Params = append(packed.Params, Param{n, sv})
+							pops = append(pops, op("param", n))
+							// as an argument the string goes through the first-match chain: only patterns stay patterns
+							if kind, _, _ := ArgKind(sv); kind == "pattern" {
+								sn := fmt.Sprintf("s%d", k)
+								args.Services = append(args.Services, Service{Name: sn, Constructor: P("pk.New"), Args: []any{sv}})
+								aops = append(aops, op("get", sn))
+							}
+						}
+						dn := fmt.Sprintf("d%d", k)
+						double.Params = append(double.Params, Param{dn, strings.ReplaceAll(sv, "%", "%%")})
+						dops = append(dops, op("param", dn))
+					}
+					cases := []*BCase{{ID: c.ID + "/params", Cfg: packed, Sessions: []BSession{{Ops: pops}}}, {ID: c.ID + "/args", Cfg: args, Sessions: []BSession{{Ops: aops}}}, {ID: c.ID + "/doubled", Cfg: double, Sessions: []BSession{{Ops: dops}}}}
+					outs, err := w.RunBehaviour(cases)
+					behaviourOracle(c, outs, err)
 				})
 			}
 			// (1b) argument texts of a registered function: every string of length <= A over {(, ), ", a, comma, space, ., /}
